@@ -327,6 +327,15 @@ Proof.
   change (Z.of_nat 8) with 8%Z in C. split; [exact A|lia].
 Qed.
 
+(* a double with a positive value has its sign bit clear *)
+Lemma RV_pos_nsign : forall a, 0 < RV a -> nsign a = false.
+Proof.
+  intros [s|s| |s m e] H; unfold RV in H; cbn [SF2R] in H; try lra.
+  destruct s; [|reflexivity]. exfalso.
+  rewrite F2R_cond_Zopp in H. cbn [cond_Ropp] in H.
+  assert (0 < F2R (Float radix2 (Z.pos m) e)) by (apply F2R_gt_0; reflexivity). lra.
+Qed.
+
 Lemma decade_unique : forall v a b, p10 a <= v < p10 (a + 1) -> p10 b <= v < p10 (b + 1) -> a = b.
 Proof.
   intros v a b [A1 A2] [B1 B2].
